@@ -1,0 +1,86 @@
+//go:build verif
+// +build verif
+
+package engine
+
+// Contracts for the deductive verifier in /verif (govc).  Comment-only file,
+// compiled only under the build tag `verif`.
+
+//@ property C20
+
+// ---- abstract contract of an engine cursor (assumed for pebble / rocksdb / in-memory cursors) ----
+// A cursor ranges over a fixed, strictly increasing sequence of keys  k[0] < k[1] < ... < k[n-1]
+// (n = ghost(n, it), kord(it, a) = order value of k[a]) with a position p = ghost(pos, it) in [-1, n].
+//@ spec kord(it Iterator, a int) float64
+//@ spec itOK(it Iterator) bool = ghost(n, it) >= 0 && -1 <= ghost(pos, it) && ghost(pos, it) <= ghost(n, it) && (forall a int, b int :: 0 <= a && a < b && b < ghost(n, it) ==> kord(it, a) < kord(it, b))
+
+//@ interface (github.com/youzan/ZanRedisDB/engine.Iterator).Valid func(it Iterator) bool
+//@   ensures result <==> (0 <= ghost(pos, it) && ghost(pos, it) < ghost(n, it))
+//@ interface (github.com/youzan/ZanRedisDB/engine.Iterator).RefKey func(it Iterator) []byte
+//@   requires 0 <= ghost(pos, it) && ghost(pos, it) < ghost(n, it)
+//@   ensures ord(result) == kord(it, ghost(pos, it))
+//@ interface (github.com/youzan/ZanRedisDB/engine.Iterator).Next func(it Iterator)
+//@   ensures old(ghost(pos, it)) < ghost(n, it) ==> ghost(pos, it) == old(ghost(pos, it)) + 1
+//@   ensures old(ghost(pos, it)) >= ghost(n, it) ==> ghost(pos, it) == old(ghost(pos, it))
+//@   modifies ghost(pos, it)
+//@ interface (github.com/youzan/ZanRedisDB/engine.Iterator).Prev func(it Iterator)
+//@   ensures old(ghost(pos, it)) >= 0 ==> ghost(pos, it) == old(ghost(pos, it)) - 1
+//@   ensures old(ghost(pos, it)) < 0 ==> ghost(pos, it) == old(ghost(pos, it))
+//@   modifies ghost(pos, it)
+//@ interface (github.com/youzan/ZanRedisDB/engine.Iterator).Seek func(it Iterator, k []byte)
+//@   ensures 0 <= ghost(pos, it) && ghost(pos, it) <= ghost(n, it)
+//@   ensures forall a int :: 0 <= a && a < ghost(pos, it) ==> kord(it, a) < ord(k)
+//@   ensures ghost(pos, it) < ghost(n, it) ==> kord(it, ghost(pos, it)) >= ord(k)
+//@   modifies ghost(pos, it)
+//@ interface (github.com/youzan/ZanRedisDB/engine.Iterator).SeekForPrev func(it Iterator, k []byte)
+//@   ensures -1 <= ghost(pos, it) && ghost(pos, it) < ghost(n, it)
+//@   ensures forall a int :: ghost(pos, it) < a && a < ghost(n, it) ==> kord(it, a) > ord(k)
+//@   ensures ghost(pos, it) >= 0 ==> kord(it, ghost(pos, it)) <= ord(k)
+//@   modifies ghost(pos, it)
+//@ interface (github.com/youzan/ZanRedisDB/engine.Iterator).SeekToFirst func(it Iterator)
+//@   ensures ghost(pos, it) == 0
+//@   modifies ghost(pos, it)
+//@ interface (github.com/youzan/ZanRedisDB/engine.Iterator).SeekToLast func(it Iterator)
+//@   ensures ghost(pos, it) == ghost(n, it) - 1
+//@   modifies ghost(pos, it)
+
+// ---- the shared range / limit wrapper every command goes through ----
+//@ spec lowerOK(it Iterator, a int, r Range) bool = r.Min == nil || (r.Type & 1 > 0 && kord(it, a) > ord(r.Min)) || (r.Type & 1 == 0 && kord(it, a) >= ord(r.Min))
+//@ spec upperOK(it Iterator, a int, r Range) bool = r.Max == nil || (r.Type & 16 > 0 && kord(it, a) < ord(r.Max)) || (r.Type & 16 == 0 && kord(it, a) <= ord(r.Max))
+//@ spec rliOK(it *RangeLimitedIterator) bool = it != nil && itOK(it.Iterator)
+
+// Valid: inside the limit and the cursor is on a key that satisfies the far bound of the range
+//@ func (it *RangeLimitedIterator) Valid() bool
+//@   requires rliOK(it)
+//@   ensures !it.reverse ==> (result <==> (it.l.Offset >= 0 && (it.l.Count < 0 || it.step < it.l.Count) && 0 <= ghost(pos, it.Iterator) && ghost(pos, it.Iterator) < ghost(n, it.Iterator) && upperOK(it.Iterator, ghost(pos, it.Iterator), it.r)))
+//@   ensures it.reverse ==> (result <==> (it.l.Offset >= 0 && (it.l.Count < 0 || it.step < it.l.Count) && 0 <= ghost(pos, it.Iterator) && ghost(pos, it.Iterator) < ghost(n, it.Iterator) && lowerOK(it.Iterator, ghost(pos, it.Iterator), it.r)))
+
+//@ func (it *RangeLimitedIterator) Next()
+//@   requires rliOK(it) && it.step < 9223372036854775807
+//@   ensures it.step == old(it.step) + 1 && rliOK(it)
+//@   ensures !it.reverse && old(ghost(pos, it.Iterator)) < ghost(n, it.Iterator) ==> ghost(pos, it.Iterator) == old(ghost(pos, it.Iterator)) + 1
+//@   ensures it.reverse && old(ghost(pos, it.Iterator)) >= 0 ==> ghost(pos, it.Iterator) == old(ghost(pos, it.Iterator)) - 1
+//@   modifies it.step, ghost(pos, it.Iterator)
+
+// ---- constructor: seek to the near bound, honour open/closed, skip Offset elements ----
+//@ spec firstLower(it Iterator, p int, r Range) bool = 0 <= p && p <= ghost(n, it) && (forall a int :: 0 <= a && a < p ==> !lowerOK(it, a, r)) && (p < ghost(n, it) ==> lowerOK(it, p, r))
+//@ spec lastUpper(it Iterator, p int, r Range) bool = -1 <= p && p <= ghost(n, it) && (p == ghost(n, it) ==> ghost(n, it) == 0) && (forall a int :: p < a && a < ghost(n, it) ==> !upperOK(it, a, r)) && (0 <= p && p < ghost(n, it) ==> upperOK(it, p, r))
+//@ spec idxValidF(it Iterator, a int, r Range, l Limit) bool = 0 <= a && a < ghost(n, it) && upperOK(it, a, r) && l.Count != 0
+//@ spec idxValidR(it Iterator, a int, r Range, l Limit) bool = 0 <= a && a < ghost(n, it) && lowerOK(it, a, r) && l.Count != 0
+// key set handed to a reverse iteration is clipped at the upper bound by the engine cursor
+// (pebble/rocksdb IterateUpperBound = Max+0x00, mem iterator upper bound): every key is <= Max
+//@ spec clippedMax(it Iterator, r Range) bool = r.Max != nil ==> (forall a int :: 0 <= a && a < ghost(n, it) ==> kord(it, a) <= ord(r.Max))
+
+//@ func rangeLimitIterator(dbit Iterator, r *Range, l *Limit, reverse bool) *RangeLimitedIterator
+//@   requires r != nil && l != nil && itOK(dbit)
+//@   ensures result != nil && fresh(result) && result.Iterator == dbit && result.step == 0 && result.reverse == reverse && rliOK(result)
+//@   ensures result.l.Offset == l.Offset && result.l.Count == l.Count && result.r.Type == r.Type && sameSlice(result.r.Min, r.Min) && sameSlice(result.r.Max, r.Max)
+//@   ensures ghost(n, dbit) == old(ghost(n, dbit))
+//@   ensures l.Offset >= 0 && !reverse ==> (exists s int :: 0 <= s && s <= l.Offset && firstLower(dbit, ghost(pos, dbit) - s, *r) && (forall a int :: ghost(pos, dbit) - s <= a && a < ghost(pos, dbit) ==> idxValidF(dbit, a, *r, *l)) && (s == l.Offset || !idxValidF(dbit, ghost(pos, dbit), *r, *l)))
+//@   ensures l.Offset >= 0 && reverse ==> (exists s int :: 0 <= s && s <= l.Offset && lastUpper(dbit, ghost(pos, dbit) + s, *r) && (forall a int :: ghost(pos, dbit) < a && a <= ghost(pos, dbit) + s ==> idxValidR(dbit, a, *r, *l)) && (s == l.Offset || !idxValidR(dbit, ghost(pos, dbit), *r, *l)))
+//@   modifies ghost(pos, dbit)
+//@ loop 1
+//@   invariant 0 <= i && i <= l.Offset && it != nil && fresh(it) && it.Iterator == dbit && it.step == 0 && it.reverse == reverse && itOK(dbit)
+//@   invariant it.l.Offset == l.Offset && it.l.Count == l.Count && it.r.Type == r.Type && sameSlice(it.r.Min, r.Min) && sameSlice(it.r.Max, r.Max)
+//@   invariant !reverse ==> firstLower(dbit, ghost(pos, dbit) - i, *r) && (forall a int :: ghost(pos, dbit) - i <= a && a < ghost(pos, dbit) ==> idxValidF(dbit, a, *r, *l))
+//@   invariant reverse ==> lastUpper(dbit, ghost(pos, dbit) + i, *r) && (forall a int :: ghost(pos, dbit) < a && a <= ghost(pos, dbit) + i ==> idxValidR(dbit, a, *r, *l))
